@@ -588,13 +588,17 @@ class ContractSet:
                         self.contracts[c.target] = c
                 elif e["kind"] == "lemma":
                     self.lemmas.append((e["target"], mi.funcs[e["name"]], e["types"], e["options"]))
-                elif e["kind"] == "shape":
-                    ci = mi.classes[e["name"]]
-                    tgt = world.find(e["target"].split("#")[0])
-                    if not isinstance(tgt, ClassInfo):
-                        raise RuntimeError(f"shape target {e['target']} is not a class")
-                    self.shapes[e["target"]] = Shape(e["target"], e["fields"], tgt, ci.methods.get("inv"), e["options"])
-                    self.shapes[e["target"].rsplit(".", 1)[-1]] = self.shapes[e["target"]]
+        # shapes: from every contract module that has been imported (they may be shared)
+        for e in api.REGISTRY:
+            if e["kind"] != "shape":
+                continue
+            smi = world.module(e["module"])
+            ci = smi.classes[e["name"]]
+            tgt = world.find(e["target"].split("#")[0])
+            if not isinstance(tgt, ClassInfo):
+                raise RuntimeError(f"shape target {e['target']} is not a class")
+            self.shapes[e["target"]] = Shape(e["target"], e["fields"], tgt, ci.methods.get("inv"), e["options"])
+            self.shapes[e["target"].rsplit(".", 1)[-1]] = self.shapes[e["target"]]
         self.tenv = TypeEnv(world, self.shapes)
 
     def loop_hooks(self):
